@@ -63,7 +63,7 @@ FLOORS = {
     "thorough": {"logpdf_points": 15000, "normalisation_checks": 600, "gof_tests": 2400, "shape_checks": 1950,
                  "logpdf_vmap_checks": 150, "distributions_reached": 24, "wrapper_cases": 7, "doc_probes": 1},
 }
-TIMEOUT_S = {"quick": 1800, "thorough": 7200}
+TIMEOUT_S = {"quick": 2700, "thorough": 7200}
 
 # argument forms: (positional names, keyword names)
 FORMS = {
